@@ -7,6 +7,7 @@ under "failed" AND its definition is omitted from the generated file, so that
 every proof depending on it stops compiling.
 """
 import ast
+import re
 import json
 import os
 import sys
@@ -339,12 +340,71 @@ class Gen:
             either a comparison on `var` alone or `True`, in which case a
             top-level `if <comparison on var>: break` must follow the
             decrement. """
+            def const_value(node):
+                """ integer value of a literal / extracted constant """
+                txt = ast.unparse(node)
+                m = re.fullmatch(r'(?:[A-Za-z_]+|self)\.([A-Z][A-Z0-9_]*)',
+                                 txt)
+                if m and m.group(1) in env:
+                    return env[m.group(1)]
+                if isinstance(node, ast.Name) and node.id in env:
+                    return env[node.id]
+                if isinstance(node, ast.Constant) and \
+                        isinstance(node.value, int) and \
+                        not isinstance(node.value, bool):
+                    return node.value
+                raise Untranslatable(f"{qual}: counter start `{txt}` is not "
+                                     "an extracted constant")
+
+            def emit_init(value, src):
+                self.exprs.append((name + '_init', ['tt_'], 'unit',
+                                   f"({value})", 'Z', src))
+
             def go():
                 f = find_def(self.tree(rel), qual)
-                loops = [n for n in ast.walk(f) if isinstance(n, ast.While)]
+                loops = [n for n in ast.walk(f)
+                         if isinstance(n, (ast.While, ast.For))
+                         and not (isinstance(n, ast.For) and not (
+                             isinstance(n.iter, ast.Call) and
+                             ast.unparse(n.iter.func) == 'range'))]
+                whiles = [n for n in loops if isinstance(n, ast.While)]
+                if len(whiles) != 1 and len(loops) == 1 and \
+                        isinstance(loops[0], ast.For):
+                    # `for _ in range(E)` whose loop variable is not used is
+                    # the countdown `v = E; while v > 0: v -= 1; ...`
+                    lp = loops[0]
+                    if not isinstance(lp.target, ast.Name) or lp.orelse or \
+                            len(lp.iter.args) != 1 or lp.iter.keywords or \
+                            any(isinstance(n, ast.Name) and
+                                n.id == lp.target.id
+                                for st in lp.body for n in ast.walk(st)):
+                        raise Untranslatable(f"{qual}: for-loop is not a "
+                                             "plain bounded repetition")
+                    cont = Tr(names={'v': 'v'}).cond(
+                        ast.parse('v > 0', mode='eval').body)
+                    nxt, _ = Tr(names={'v': 'v'}).expr(
+                        ast.parse('v - 1', mode='eval').body)
+                    src = f"for _ in {ast.unparse(lp.iter)}: ..."
+                    self.exprs.append((name + '_continues', ['v'], 'Z', cont,
+                                       'bool', src))
+                    self.exprs.append((name + '_next', ['v'], 'Z', nxt, 'Z',
+                                       src))
+                    emit_init(const_value(lp.iter.args[0]), src)
+                    return
+                loops = whiles
                 if len(loops) != 1:
                     raise Untranslatable(f"{qual}: expected one while loop")
                 lp = loops[0]
+                inits = [st for st in f.body if isinstance(st, ast.Assign)
+                         and len(st.targets) == 1
+                         and isinstance(st.targets[0], ast.Name)
+                         and st.targets[0].id == var]
+                if len(inits) != 1 or f.body.index(inits[0]) > \
+                        f.body.index(lp) if lp in f.body else len(inits) != 1:
+                    raise Untranslatable(f"{qual}: `{var}` must be "
+                                         "initialised once before the loop")
+                init_value = const_value(inits[0].value)
+                init_src = ast.unparse(inits[0])
                 stores = [n for n in ast.walk(lp)
                           if isinstance(n, ast.Name) and n.id == var
                           and isinstance(n.ctx, ast.Store)]
@@ -405,6 +465,7 @@ class Gen:
                                    'bool', src))
                 self.exprs.append((name + '_next', ['v'], 'Z', nxt, 'Z',
                                    ast.unparse(decs[0])))
+                emit_init(init_value, init_src)
             self.item(name, go)
         loop_variant(c, 'LogFileDateSinceSeeker.find_token', 'attempts',
                      'loop_find_token')
@@ -420,9 +481,11 @@ class Gen:
 
         def the_loop(qual):
             f = find_def(self.tree(c), qual)
-            loops = [n for n in ast.walk(f) if isinstance(n, ast.While)]
+            loops = [n for n in ast.walk(f) if isinstance(n, ast.While) or
+                     (isinstance(n, ast.For) and isinstance(n.iter, ast.Call)
+                      and ast.unparse(n.iter.func) == 'range')]
             if len(loops) != 1:
-                raise Untranslatable(f"{qual}: expected one while loop")
+                raise Untranslatable(f"{qual}: expected one loop")
             return f, loops[0]
 
         def call_arg(stmts, func_text):
@@ -537,19 +600,41 @@ class Gen:
             defs_ = [st for st in ast.walk(lp) if isinstance(st, ast.Assign)
                      and ast.unparse(st.targets[0]) == ast.unparse(off[0])]
             e = defs_[0].value if len(defs_) == 1 else off[0]
-            tr2 = Tr(names={'start_offset': 'start', 'current_offset': 'cur',
+            # the cursor: the one local updated from itself and len(chunk)
+            upd = [st for st in lp.body
+                   if isinstance(st, (ast.Assign, ast.AugAssign))
+                   and isinstance(st.targets[0] if isinstance(st, ast.Assign)
+                                  else st.target, ast.Name)
+                   and 'len(chunk)' in ast.unparse(st.value)]
+            if len(upd) != 1:
+                raise Untranslatable("find_token: one cursor update "
+                                     "`<cursor> = <cursor> + len(chunk)` "
+                                     "expected")
+            if isinstance(upd[0], ast.AugAssign):
+                cursor = upd[0].target.id
+                fake = ast.Assign(
+                    targets=[upd[0].target],
+                    value=ast.BinOp(left=ast.Name(id=cursor, ctx=ast.Load()),
+                                    op=upd[0].op, right=upd[0].value))
+                ast.copy_location(fake, upd[0])
+                ast.fix_missing_locations(fake)
+                upd_value = fake.value
+            else:
+                cursor = upd[0].targets[0].id
+                upd_value = upd[0].value
+            zero = [st for st in f.body if isinstance(st, ast.Assign)
+                    and ast.unparse(st.targets[0]) == cursor]
+            if len(zero) != 1 or ast.unparse(zero[0].value) != '0':
+                raise Untranslatable(f"find_token: `{cursor} = 0` expected "
+                                     "once before the loop")
+            tr2 = Tr(names={'start_offset': 'start', cursor: 'cur',
                             'chunk_offset': 'i'})
             t2, _ = tr2.expr(e)
             self.exprs.append(('ft_found', ['start', 'cur', 'i'], 'Z', t2,
                                'Z', ast.unparse(e)))
-            upd = [st for st in lp.body if isinstance(st, ast.Assign)
-                   and ast.unparse(st.targets[0]) == 'current_offset']
-            if len(upd) != 1:
-                raise Untranslatable("find_token: one update of "
-                                     "current_offset expected")
-            tr3 = Tr(names={'current_offset': 'cur'},
+            tr3 = Tr(names={cursor: 'cur'},
                      subst={'len(chunk)': ('n', 'Z', ['n'])})
-            t3, _ = tr3.expr(upd[0].value)
+            t3, _ = tr3.expr(upd_value)
             self.exprs.append(('ft_next_cur', ['cur', 'n'], 'Z', t3, 'Z',
                                ast.unparse(upd[0])))
             after_upd = lp.body[lp.body.index(upd[0]) + 1:]
